@@ -618,18 +618,15 @@ func vf04PrimClass(q vf04Query, attrs []string) string {
 		return "oid-order"
 	}
 	f := q.Filters[0]
-	m := "str"
 	switch {
 	case f.Key == object.FilterRoot || f.Key == object.FilterPhysical:
-		m = "flag"
+		return vf04KeyClass(f.Key)
 	case vf04IsNum(f.op()):
-		m = "num"
+		return vf04KeyClass(f.Key) + "/numeric"
 	case f.op() == object.MatchNotPresent:
 		return "oid-order(first NOT_PRESENT)"
-	case f.op() == object.MatchStringEqual:
-		m = "eq"
 	}
-	return vf04KeyClass(f.Key) + "/" + m
+	return vf04KeyClass(f.Key)
 }
 
 func TestVerif_C04(t *testing.T) {
@@ -639,8 +636,8 @@ func TestVerif_C04(t *testing.T) {
 	r.Assume("shards are visited in Go map order inside StorageEngine.Search; the merge must not depend on it, the monitor does not control it")
 	r.Assume("availability is the same on all shards (only epoch-driven expiry); diverging marks between shards are C08/C20's subject")
 	env := vf04NewEnv(t)
-	nCases := r.Pick(24, 600)
-	nQueries := r.Pick(40, 60)
+	nCases := r.Pick(20, 200)
+	nQueries := r.Pick(32, 60)
 	ctx := context.Background()
 	type rep struct {
 		Case   int       `json:"case"`
@@ -729,7 +726,11 @@ func TestVerif_C04(t *testing.T) {
 								} else if int(page) < len(want) {
 									pc = "mid"
 								}
-								r.Distinct(prim + "|" + m.name + "|page=" + pc)
+								mk := ""
+								if len(q.Filters) > 0 {
+									mk = q.Filters[0].op().String()
+								}
+								r.Distinct(prim + "/" + mk + "|" + m.name + "|page=" + pc)
 								r.Seen("first_attribute_kinds", prim)
 							}
 							continue
